@@ -687,8 +687,14 @@ static void utf8reuse_eval(uint64_t idx, void *ctx) {
     /* the callback's user_data is fixed at creation: use a second decoder object for the log of text 2 only when needed;
      * here the same object must be re-used, so log both texts into `first` and compare its tail */
     struct cplog both = {{0}, 0};
-    struct aws_utf8_decoder_options bo = {.on_codepoint = on_cp, .user_data = &both};
-    d = aws_utf8_decoder_new(aws_default_allocator(), &bo);
+    /* the options live in a block of their own that is given back right after the decoder was created: a decoder takes what
+     * it needs from the options at creation (added after a seeded change that kept a pointer to the caller's struct) */
+    struct aws_utf8_decoder_options *bo = (struct aws_utf8_decoder_options *)malloc(sizeof(*bo));
+    memset(bo, 0, sizeof(*bo));
+    bo->on_codepoint = on_cp;
+    bo->user_data = &both;
+    d = aws_utf8_decoder_new(aws_default_allocator(), bo);
+    free(bo);
     (void)aws_utf8_decoder_update(d, aws_byte_cursor_from_array(b1, n1));
     (void)aws_utf8_decoder_finalize(d);
     int before = both.n;
